@@ -27,6 +27,9 @@ HOSTS = [("reg", "example.com"), ("idn", "bücher.example"), ("idn2", "例え.jp
          ("idn2003-symbol", "☃.net"), ("idn2003-underscore", "_sip.bücher.de"), ("idn2003-hyphens", "bü--cher.de"), ("idn2003-bidi", "٣.bücher.de"), ("idn2003-emoji", "i❤.ws")]
 DEFAULT = {"http": 80, "https": 443, "ws": 80, "wss": 443, "ftp": 21}
 
+# parts also run by 4 threads at once in one process (runner adds the jobs; see yv/ctx.py Ctx.threaded)
+SHARED = [("random", {"n": 2000}, {"n": 40000})]
+
 
 def plan(tier, seed):
     thorough = tier == "thorough"
@@ -86,20 +89,35 @@ def check(ctx, kw, sig, _derived=False):
         else:
             ctx.fail("unexpected_exception", case, f"build raised {u!r}")
         return
+    # the built URL first: what it computes (and may memoise) while rendering exists BEFORE anything is derived from it
+    _check_url(ctx, u, case, sig, kw)
     if not _derived:
-        # the same URL with its port written out although it is the scheme's default, and under another scheme
-        # (still "built from decoded components", only through modifiers): same obligations
+        # the same URL with its port written out although it is the scheme's default, under another scheme, and with its
+        # query/fragment/path changed through modifiers (still "built from decoded components"): same obligations, and
+        # nothing the source already rendered may leak into what the derived URL shows
         sch = kw.get("scheme", "")
+        nroute = 0
         for tag, fn in (("with_port(default)", lambda: u.with_port(DEFAULT[sch]) if sch in DEFAULT else None), ("with_scheme", lambda: u.with_scheme("https" if sch != "https" else "http")),
-                        ("with_port(443)+with_scheme(https)", lambda: u.with_port(443).with_scheme("https")), ("with_port(0)", lambda: u.with_port(0))):
+                        ("with_port(443)+with_scheme(https)", lambda: u.with_port(443).with_scheme("https")), ("with_port(0)", lambda: u.with_port(0)),
+                        ("with_query", lambda: u.with_query({"ключ": "знач #1"})), ("update_query", lambda: u.update_query("zz=1&é=ü ö")), ("extend_query", lambda: u.extend_query([("k k", "v&v")])),
+                        ("mod", lambda: u % {"m": "1"}), ("with_query(None)", lambda: u.with_query(None)), ("without_query_params", lambda: u.extend_query(zzq="1").without_query_params("zzq")),
+                        ("with_fragment", lambda: u.with_fragment("фраг мент")), ("with_fragment(None)", lambda: u.with_fragment(None)), ("div", lambda: u / "доп сегмент"),
+                        ("with_user", lambda: u.with_user("новий")), ("with_host", lambda: u.with_host("другой.example")), ("with_name", lambda: u.with_name("имя.txt")),
+                        ("with_path", lambda: u.with_path("/новый путь"))):
+            nroute += 1
+            if nroute > 4 and (nroute + ctx.evaluations) % 4:
+                continue  # the port/scheme variants always, a rotating quarter of the others
             v = guarded(fn)
             if v is None or is_exc(v):
                 continue
-            _check_url(ctx, v, dict(case, then=tag), (sig + (tag,)) if sig else None, kw)
-    _check_url(ctx, u, case, sig, kw)
+            kw2 = kw
+            if tag in ("with_fragment", "with_fragment(None)", "div", "with_user", "with_host", "with_name", "with_path"):
+                # the literal-text obligations below are stated for the built components; for these only the round trip and the escape policy apply
+                kw2 = {"host": "другой.example"} if tag == "with_host" else {k: v_ for k, v_ in kw.items() if k == "host"}
+            _check_url(ctx, v, dict(case, then=tag), (sig + (tag,)) if sig else None, kw2, kw_full=kw)
 
 
-def _check_url(ctx, u, case, sig, kw):
+def _check_url(ctx, u, case, sig, kw, kw_full=None):
     from yarl import URL
 
     hr = guarded(u.human_repr)
@@ -129,7 +147,7 @@ def _check_url(ctx, u, case, sig, kw):
             bad.append(("readable_text_missing", f"{key}={t!r} not in {hr!r}"))
     ctx.ev(sig + ("ok" if not bad else bad[0][0],) if sig else None)
     if bad:
-        ctx.fail("human_repr", case, f"human_repr={hr!r}: " + "; ".join(f"{k}: {d}" for k, d in bad[:3]), kinds=[b[0] for b in bad], hr=hr, _kw=kw)
+        ctx.fail("human_repr", case, f"human_repr={hr!r}: " + "; ".join(f"{k}: {d}" for k, d in bad[:3]), kinds=[b[0] for b in bad], hr=hr, _kw=kw_full or kw)
 
 
 def mk(host, user=None, password=None, port=None, path="/", q=None, fragment="", scheme="http"):
